@@ -98,6 +98,7 @@ type proxyCfg struct {
 	EntraAllowedTenants   []string
 	IdPAdvertisedPKCE     []string // code_challenge_methods_supported of the discovery document (nil = S256 and plain)
 	RedisRealTime         bool     // miniredis TTLs run down in real time (they are otherwise frozen): locks and entries really expire
+	RedisReadTimeout      time.Duration // read_timeout of the Redis client (0 = the client's default of 3 s)
 }
 
 type testEnv struct {
@@ -320,6 +321,16 @@ func newEnv(c *suiteCtx, cfg proxyCfg) (*testEnv, error) {
 			if kind != "always" { // "always": the command keeps failing for the whole request (e.g. a read-only replica refusing writes)
 				delete(e.redisFault, strings.ToUpper(cmd))
 			}
+			if kind == "hang" {
+				// the server stalls on this command: nothing is executed, the client gives up after its read timeout
+				wait := 3500 * time.Millisecond
+				if cfg.RedisReadTimeout > 0 {
+					wait = cfg.RedisReadTimeout + 400*time.Millisecond
+				}
+				time.Sleep(wait)
+				p.WriteError("ERR verif: stalled")
+				return true
+			}
 			if kind == "after" && strings.ToUpper(cmd) == "DEL" {
 				for _, k := range args {
 					mr.Del(k)
@@ -347,6 +358,9 @@ func newEnv(c *suiteCtx, cfg proxyCfg) (*testEnv, error) {
 		}
 		o.Session.Type = options.RedisSessionStoreType
 		o.Session.Redis.ConnectionURL = "redis://" + mr.Addr() + "?max_retries=-1"
+		if cfg.RedisReadTimeout > 0 {
+			o.Session.Redis.ConnectionURL += "&read_timeout=" + cfg.RedisReadTimeout.String()
+		}
 	}
 	o.Session.Cookie.Minimal = cfg.CookieMinimal
 	// the options under test are the ones the real configuration loader produces for these settings
